@@ -795,16 +795,20 @@ Proof.
   change (vzero (S n)) with (0 :: vzero n). rewrite vdot_cons, IH. lra.
 Qed.
 
-Lemma xsum_lin c Tref m T P : xsum (lin_H c Tref) m T P == lin_Cn c m * (T - Tref) + lin_L c m.
+Lemma lin_sum_cons f c pv m : lin_sum f c (pv :: m) = vdot (f c (fst pv)) (snd pv) + lin_sum f c m.
+Proof. reflexivity. Qed.
+
+Lemma xsum_lin c Tref m T P :
+  xsum (lin_H c Tref) m T P == lin_Cn c m * (T - Tref) + lin_L c m + lin_K c m * (P - Pref c) / 1024.
 Proof.
-  induction m as [|pv m IH]; [simpl; lra|].
-  rewrite xsum_cons. unfold lin_Cn, lin_L. cbn [fold_right]. fold (lin_Cn c m). fold (lin_L c m).
-  rewrite IH. unfold lin_H. lra.
+  induction m as [|pv m IH]; [simpl; field|].
+  rewrite xsum_cons. unfold lin_Cn, lin_L, lin_K in *. rewrite !lin_sum_cons, IH. unfold lin_H. field.
 Qed.
 
 Lemma lin_solve_value c Tref m h Tg P T' :
   lin_solve c Tref m h Tg P = Ok T' ->
-  ~ lin_Cn c m == 0 /\ T' == Tg + (h - (lin_Cn c m * (Tg - Tref) + lin_L c m)) / lin_Cn c m.
+  ~ lin_Cn c m == 0 /\
+  T' == Tg + (h - (lin_Cn c m * (Tg - Tref) + lin_L c m + lin_K c m * (P - Pref c) / 1024)) / lin_Cn c m.
 Proof.
   unfold lin_solve, iter_T_at_HP, refresh. simpl Nat.eqb. cbv iota.
   destruct (qzerob (lin_Cn c m)) eqn:Z; [discriminate|]. cbn [bind fst]. intros E; injection E as <-.
@@ -817,22 +821,22 @@ Proof. reflexivity. Qed.
 Lemma swapcase_gas p : (swapcase p =? 3)%nat = (p =? 3)%nat.
 Proof. destruct p as [|[|[|[|[|[|p]]]]]]; reflexivity. Qed.
 
-Lemma xsum_linS c Tref m T P : xsum (lin_S c Tref) m T P == lin_Cn c m * (T - Tref) / 256 + lin_S0 c m.
+Lemma xsum_linS c Tref m T P :
+  xsum (lin_S c Tref) m T P == lin_Cn c m * (T - Tref) / 256 + lin_S0 c m - lin_K c m * (P - Pref c) / 65536.
 Proof.
   induction m as [|pv m IH]; [simpl; field|].
-  rewrite xsum_cons. unfold lin_Cn, lin_S0. cbn [fold_right]. fold (lin_Cn c m). fold (lin_S0 c m).
-  rewrite IH. unfold lin_S. field.
+  rewrite xsum_cons. unfold lin_Cn, lin_S0, lin_K in *. rewrite !lin_sum_cons, IH. unfold lin_S. field.
 Qed.
 
 Lemma lin_contracts c hf Tref : contracts (lin_oracles c hf Tref).
 Proof.
   constructor; cbn [Hmix Smix solveH solveS lin_oracles].
   - intros p v k T P Hk. unfold lin_H.
-    rewrite <- (vdot_vdivs (cn_of c p) v k Hk), <- (vdot_vdivs (lat_of c p) v k Hk). lra.
+    rewrite <- (vdot_vdivs (cn_of c p) v k Hk), <- (vdot_vdivs (lat_of c p) v k Hk), <- (vdot_vdivs (kp_of c p) v k Hk). field.
   - intros p v k T P Hk. unfold lin_S.
-    rewrite <- (vdot_vdivs (cn_of c p) v k Hk), <- (vdot_vdivs (s0_of c p) v k Hk). field.
-  - intros p n T P. unfold lin_H. rewrite !vdot_vzero. lra.
-  - intros p v T P. unfold lin_H, cn_of, lat_of. rewrite swapcase_gas. reflexivity.
+    rewrite <- (vdot_vdivs (cn_of c p) v k Hk), <- (vdot_vdivs (s0_of c p) v k Hk), <- (vdot_vdivs (kp_of c p) v k Hk). field.
+  - intros p n T P. unfold lin_H. rewrite !vdot_vzero. field.
+  - intros p v T P. unfold lin_H, cn_of, lat_of, kp_of. rewrite swapcase_gas. reflexivity.
   - intros m x Tg P T' S. apply lin_solve_value in S. destruct S as [Z ET].
     rewrite xsum_lin, ET. field. exact Z.
   - intros m x Tg P T' S. unfold lin_solveS in S.
@@ -1134,3 +1138,51 @@ Qed.
 (* the work-space is released whatever the solve does *)
 Lemma workspace_released_lemma {A} loaded (body : workspace -> res A) : snd (with_workspace loaded body) = [].
 Proof. reflexivity. Qed.
+
+(* ------------------------------------------------------------------ the in-repo ideal mixture models meet the homogeneity contract *)
+Lemma qzerob_div j k : ~ k == 0 -> qzerob (j / k) = qzerob j.
+Proof.
+  intros Hk. destruct (qzerob j) eqn:Z.
+  - apply qzerob_true in Z. apply qzerob_true. rewrite Z. field. exact Hk.
+  - apply qzerob_false in Z. apply qzerob_false. intros E. apply Z.
+    assert (j == j / k * k) by (field; exact Hk). rewrite H, E. ring.
+Qed.
+
+Lemma qsum_vdivs v k : ~ k == 0 -> qsum (vdivs v k) == qsum v / k.
+Proof.
+  intros Hk. induction v as [|x v IH]; [simpl; field; exact Hk|].
+  change (vdivs (x :: v) k) with ((x / k) :: vdivs v k). rewrite !qsum_cons, IH. field. exact Hk.
+Qed.
+
+Lemma ideal_sum_homog models p v k T P :
+  ~ k == 0 -> ideal_sum models p (vdivs v k) T P * k == ideal_sum models p v T P.
+Proof.
+  intros Hk. unfold ideal_sum. revert models. induction v as [|j v IH]; intros [|f models]; try (simpl; ring).
+  change (vdivs (j :: v) k) with ((j / k) :: vdivs v k). cbn [map2]. rewrite !qsum_cons.
+  rewrite (qzerob_div j k Hk). specialize (IH models).
+  destruct (qzerob j).
+  - rewrite <- IH. ring.
+  - rewrite <- IH. field. exact Hk.
+Qed.
+
+Lemma ideal_terms_homog (lnf : Q -> Q) models p v k T P tot tot' :
+  (forall a b, a == b -> lnf a == lnf b) -> ~ k == 0 -> ~ tot == 0 -> tot' == tot / k ->
+  qsum (map2 (fun j (f : pure_model) => if qzerob j then 0 else j * f p T P + j * lnf (j / tot')) (vdivs v k) models) * k
+  == qsum (map2 (fun j (f : pure_model) => if qzerob j then 0 else j * f p T P + j * lnf (j / tot)) v models).
+Proof.
+  intros Hln Hk Ht Et. revert models. induction v as [|j v IH]; intros [|f models]; try (simpl; ring).
+  change (vdivs (j :: v) k) with ((j / k) :: vdivs v k). cbn [map2]. rewrite !qsum_cons.
+  rewrite (qzerob_div j k Hk). specialize (IH models).
+  destruct (qzerob j).
+  - rewrite <- IH. ring.
+  - rewrite <- IH.
+    assert (E : j / k / tot' == j / tot) by (rewrite Et; field; split; assumption).
+    rewrite (Hln _ _ E). field. exact Hk.
+Qed.
+
+Lemma ideal_S_homog lnf models p v k T P :
+  (forall a b, a == b -> lnf a == lnf b) -> ~ k == 0 -> ~ qsum v == 0 ->
+  ideal_S lnf models p (vdivs v k) T P * k == ideal_S lnf models p v T P.
+Proof.
+  intros Hln Hk Ht. unfold ideal_S. apply ideal_terms_homog; auto. now apply qsum_vdivs.
+Qed.
